@@ -73,6 +73,15 @@ func c20Corpus() []corr.Case {
 			"openfile "+fsn("dst")+" 1025", "write 4 2b2b", "close 4", "bucket", "open "+fsn("dst"), "read 5 64", "hstat 5"),
 		mk("case "+hx("a")+"=0102030405060708 "+hx("b")+"=11", "openfile "+fsn("b")+" 2", "hstat 0", "close 0", "rename "+fsn("a")+" "+fsn("b"), "bucket",
 			"openfile "+fsn("b")+" 2", "hstat 1", "seek 1 0 2", "write 1 ff", "close 1", "bucket"),
+		// a folder next to an object whose name merely begins with the folder's name ("report/…" and "report.txt"):
+		// outside the discipline of the theorems (segments are prefix-free there) — model and code must still agree
+		mk("case "+hx("report/jan")+"=01 "+hx("report.txt")+"=02 "+hx("report-old/x")+"=03", "stat "+fsn("report"), "open "+fsn("report"), "readdir 0 0", "close 0",
+			"remove "+fsn("report"), "removeall "+fsn("report"), "bucket", "stat "+fsn("report"), "stat "+fsn("report.txt")),
+		// folder names spelled with backslashes, also a trailing one
+		mk("case", "mkdir "+hx(bucketName+"\\logs\\"), "bucket", "stat "+fsn("logs"), "create "+fsn("logs/a"), "close 0", "remove "+fsn("logs/a"), "bucket",
+			"removeall "+hx(bucketName+"\\logs"), "bucket", "stat "+fsn("logs"), "mkdirall "+hx(bucketName+"\\p\\q\\"), "bucket", "removeall "+fsn("p"), "bucket"),
+		// an implicit folder asked for with its trailing separator
+		mk("case "+hx("report/jan")+"=01 "+hx("report/feb/x")+"=02", "stat "+hx(bucketName+"/report/"), "stat "+hx(bucketName+"\\report\\feb\\"), "stat "+fsn("report/feb"), "bucket"),
 		// large payloads across the 32 KiB copy buffer
 		mk("case "+hx("f")+"=#70000:3", "openfile "+fsn("f")+" 2", "seek 0 40000 0", "write 0 #5:200", "close 0", "bucket", "open "+fsn("f"), "seek 1 39998 0", "read 1 10", "readat 1 40000 30000"),
 		// explicit and implicit folders, Mkdir/MkdirAll, Remove of an empty explicit folder
@@ -169,6 +178,13 @@ func c20Exhaustive(tier string) []corr.Case {
 			for _, op := range []string{"remove", "removeall", "mkdir", "mkdirall"} {
 				cases = append(cases, corr.Case{Lines: []string{hdr, op + " " + fsn(tgt), "bucket", "stat " + fsn(tgt), "stat " + fsn("d"), "open " + fsn(""), "readdir 0 0"}})
 			}
+			if mask%4 == 1 { // a folder named with its trailing separator, in either spelling
+				for _, op := range []string{"mkdir", "mkdirall"} {
+					for _, nm := range []string{bucketName + "/" + tgt + "/", strings.ReplaceAll(bucketName+"/"+tgt, "/", "\\") + "\\"} {
+						cases = append(cases, corr.Case{Lines: []string{hdr, op + " " + hx(nm), "bucket", "stat " + fsn(tgt), "open " + fsn(""), "readdir 0 0"}})
+					}
+				}
+			}
 		}
 		if tier == "thorough" || mask%8 == 5 {
 			for _, a := range []string{"d/d", "d/x", "x", "e/y", "d"} {
@@ -233,6 +249,20 @@ func spelling(r *corr.Rand, p string) string {
 		return hx(strings.ReplaceAll(full, "/", "\\"))
 	}
 	return hx(full)
+}
+
+// folderSpelling is spelling for a name that is about to become a folder: one time in three it carries its
+// trailing separator, in the spelling's own separator ("bkt/logs/", "bkt\\logs\\").
+func folderSpelling(r *corr.Rand, p string) string {
+	h := spelling(r, p)
+	if p == "" || !r.Chance(33) {
+		return h
+	}
+	raw := string(unhex(h))
+	if strings.Contains(raw, "\\") {
+		return hx(raw + "\\")
+	}
+	return hx(raw + "/")
 }
 
 func randLayout(r *corr.Rand) map[string][]byte {
@@ -413,7 +443,7 @@ func randProgram(r *corr.Rand, steps int) corr.Case {
 		case roll < 80:
 			names := append(files(), folders()...)
 			names = append(names, randPath(r, 3), "")
-			emit("stat " + spelling(r, corr.Pick(r, names)))
+			emit("stat " + folderSpelling(r, corr.Pick(r, names)))
 		case roll < 86:
 			fo := append(folders(), "")
 			if emit("open " + spelling(r, corr.Pick(r, fo))) {
@@ -426,7 +456,7 @@ func randProgram(r *corr.Rand, steps int) corr.Case {
 			if r.Bool() {
 				op = "mkdirall "
 			}
-			if emit(op + spelling(r, randPath(r, 3))) {
+			if emit(op + folderSpelling(r, randPath(r, 3))) {
 				emit("bucket")
 			}
 		case roll < 93:
